@@ -166,14 +166,34 @@ func bounded(full []int, maxLength, top int) []int {
 	return r
 }
 
-func observe(g6 string, base *gx.G, v gx.Variant, ref refData, viol *[]hx.OracleViolation) fields {
+func observe(g6 string, base *gx.G, v gx.Variant, ref refData, zmode int, viol *[]hx.OracleViolation) (fields, bool) {
 	n := base.N
 	tag := fmt.Sprintf("%c:%s", v.Rep, gx.JoinInts(v.Perm, "."))
 	fail := func(fn, format string, a ...interface{}) {
 		*viol = append(*viol, hx.Fail("C10:"+fn+":"+g6+":"+tag, "%s on %s variant %s: %s", fn, g6, tag, fmt.Sprintf(format, a...)))
 	}
 	inv := gx.Inverse(v.Perm)
-	g := gx.Build(v.Rep, base, v.Perm)
+	zo := callOpts{pairs: samplePairs(n), cvs: sampleCvs(n), cy: ref.cyclomatic <= maxCyclomatic && editableRep(v.Rep), icb: -1, ipb: -1, order: zmode + 1, twice: true}
+	if n > 8 {
+		zo.icb, zo.ipb = 4, 3
+	}
+	g := buildAny(v.Rep, base, v.Perm, func(x graph.Graph) { callAll(x, zo) })
+	h := base.Relabel(v.Perm)
+	if !presents(g, h) {
+		// the representation does not show the intended graph: not this property's business
+		return fields{}, false
+	}
+	defer func() {
+		if !presents(g, h) {
+			fail("argument", "the argument graph was modified by the calls")
+		}
+	}()
+	if zmode >= 0 {
+		if r := callAll(g, zo); len(r.unstable) > 0 {
+			fail("twice", "two consecutive calls of %v returned different values", r.unstable)
+		}
+		disturb(g, h, zo, g6+":"+tag, viol)
+	}
 	f := fields{n: g.N(), m: g.M()}
 
 	// distances, all ordered pairs, in base labels
@@ -255,7 +275,7 @@ func observe(g6 string, base *gx.G, v gx.Variant, ref refData, viol *[]hx.Oracle
 	f.ar = gx.JoinInts(ba, ".")
 
 	// cycle structure
-	if eg, ok := g.(graph.EditableGraph); ok && ref.cyclomatic <= maxCyclomatic {
+	if eg, ok := g.(graph.EditableGraph); ok && editableRep(v.Rep) && ref.cyclomatic <= maxCyclomatic {
 		f.cy = gx.JoinInts(graph.NumberOfCycles(eg), ".")
 		if eg.N() != n || eg.M() != ref.f.m {
 			fail("NumberOfCycles", "the argument was modified")
@@ -281,21 +301,42 @@ func observe(g6 string, base *gx.G, v gx.Variant, ref refData, viol *[]hx.Oracle
 		}
 	}
 	f.icb, f.ipb = strings.Join(icb, "/"), strings.Join(ipb, "/")
-	return f
+	return f, true
 }
 
 func exec(line string) hx.Result {
+	if strings.HasPrefix(line, "#") {
+		return execBig(line)
+	}
 	c := gx.ParseCase(line)
 	var viol []hx.OracleViolation
 	ref := reference(c.Base)
 	vars := append([]gx.Variant{{Rep: 'd', Perm: gx.Identity(c.Base.N)}}, c.Vars...)
+	zsel := map[int]bool{}
+	for _, t := range c.Toks {
+		if strings.IndexByte(extraReps, t.Kind) >= 0 {
+			vars = append(vars, gx.Variant{Rep: t.Kind, Perm: t.Ints})
+		} else if t.Kind == 'Z' && len(t.Ints) == 1 {
+			zsel[t.Ints[0]] = true
+		}
+	}
 	var first fields
 	extra := false
 	for i, v := range vars {
 		if len(v.Perm) != c.Base.N {
 			continue
 		}
-		f := observe(c.G6, c.Base, v, ref, &viol)
+		zmode := -1
+		if zsel[i] {
+			zmode = i
+		}
+		f, ok := observe(c.G6, c.Base, v, ref, zmode, &viol)
+		if !ok {
+			if i == 0 {
+				return hx.Result{Obs: "skipped"}
+			}
+			continue
+		}
 		if f.cy == "" { // not editable or too many independent cycles: NumberOfCycles not called
 			f.cy = ref.f.cy
 		}
